@@ -352,13 +352,15 @@ Proof.
     apply block_runs_nil in Hrs. subst. destruct Hr.
 Qed.
 
-Theorem assign_unit_blocks_refines (t : tb) (k : ckey) ps : wf_tb t -> t <> [] -> walk_dom k = true ->
+Theorem assign_unit_blocks_refines (t : tb) (k : ckey) (as_array : bool) ps : wf_tb t -> t <> [] ->
+  walk_dom k (Z.of_nat (length (flatten t))) = true ->
   slice_flag_ok k ->
   key_positions k (Z.of_nat (length (flatten t))) = Ok ps ->
-  res_map flatten (M_assign_unit_blocks is_slice sliceable newdt cells t (asc_key k (Z.of_nat (length (flatten t))))) =
+  res_map flatten (M_assign_unit_blocks is_slice sliceable newdt cells t
+                     (ascending_key k (Z.of_nat (length (flatten t))) as_array)) =
   Ok (S_assign_from ps astep anew 0 0 (flatten t)).
 Proof.
-  intros Hwf Hne Hdom Hflag Ek. unfold M_assign_unit_blocks, block_slices_for, Gen.Gen_c08.retain_key_order_assign_from_iloc_by_unit.
+  intros Hwf Hne Hdom Hflag Ek. rewrite ascending_key_normalises, <- asc_key_normalises. unfold M_assign_unit_blocks, block_slices_for, Gen.Gen_c08.retain_key_order_assign_from_iloc_by_unit.
   destruct (block_slices_asc_runs t k ps Hwf Hdom Ek) as (ps' & Hinc & Hsame & Hrange & Ets).
   unfold block_slices_asc, ncols, tb_index in Ets. rewrite index_from_length in Ets. rewrite Ets.
   assert (Hsl : is_slice = true \/ forall rs r, In rs (block_runs t ps') -> In r rs -> snd r = 1%nat).
